@@ -52,6 +52,8 @@ type Runner struct {
 	// CommitData, filled by Execute: real commit id (string) -> sorted u values visible at it (read cold after the run).
 	CommitData map[string][]int
 	MainTip    string
+	// Final, filled by Execute: u values of p@main read cold after the run (nil if unreadable).
+	Final []int
 	// SkipTipData disables the "value of every acknowledged tip is visible" oracle
 	// (for runs whose tips are not loads).
 	SkipTipData bool
@@ -95,7 +97,7 @@ func (r *Runner) Execute(sc *lakeh.JScenario, sched []lakeh.GateStep, want *lake
 		return nil, nil, "", err
 	}
 	if _, ok := sc.Init["b1"]; ok && sc.Journal == "branches" {
-		if err := lk0.API.CreateBranch(ctx, poolP, "b1", mainTip); err != nil {
+		if err := lk0.API.CreateBranch(ctx, poolP, "b1", mainTip); err != nil && !strings.Contains(err.Error(), "already exists") {
 			return nil, nil, "", err
 		}
 	}
@@ -281,6 +283,17 @@ func (r *Runner) Execute(sc *lakeh.JScenario, sched []lakeh.GateStep, want *lake
 			if g.Op.K == "tip" && g.Res == "ok" {
 				want[g.ID] = true
 			}
+		}
+		r.Final = nil
+		if rows, err := obs.Query(ctx, "from p@main"); err == nil {
+			r.Final = []int{}
+			for _, row := range rows {
+				var kk, u int
+				if _, err := fmt.Sscanf(row, "{k:%d,u:%d}", &kk, &u); err == nil {
+					r.Final = append(r.Final, u)
+				}
+			}
+			sort.Ints(r.Final)
 		}
 		for id := range want {
 			rows, err := obs.Query(ctx, "from p@"+id)
